@@ -19,7 +19,7 @@ pub fn prop() -> Prop {
            Part `single-op` enumerates one operator x all inputs of length <= 4 over {0,1,2} x every terminal exhaustively (thorough tier).",
     assumptions: &[
       "predicates / map / fold / key functions come from a fixed total family shared by pipeline and model",
-      "take(0) and buffer_with_count(0) are not generated (statement silent); skip_last accepts both the eager (code) and the at-completion (doc) timing",
+      "buffer_with_count(0) is not generated; take(0): no item, terminal either immediate or the source's own; skip_last accepts both the eager (code) and the at-completion (doc) timing",
       "numeric aggregates project items to i64 (sum) / f64 (average, compared after rounding to 1e-3)",
     ],
     parts: vec![
@@ -254,19 +254,28 @@ pub fn judge(case: &Case, ctx: &Ctx) -> Outcome {
     return Outcome::discard();
   };
   let actual = execute(case);
-  let mut has_skip_last = false;
+  let (mut has_skip_last, mut has_take0) = (false, false);
   case.node.visit(&mut |n| {
     if matches!(n, Node::Un(Un::SkipLast(_), _, _)) {
       has_skip_last = true
+    }
+    if matches!(n, Node::Un(Un::Take(0), _, _)) {
+      has_take0 = true
     }
   });
   let names = chain_names(&case.node).join(">");
   let verdict = match &actual {
     Err(msg) => Verdict::Violation { sig: format!("panic:{names}"), detail: format!("pipeline panicked: {msg}") },
     Ok(act) => {
-      let ok = *act == expected
-        || (has_skip_last
-          && model::eval(&case.node, &inputs, Opts { skip_last_lazy: true, ..Opts::default() }).map_or(false, |e| e == *act));
+      let mut ok = *act == expected;
+      if !ok && (has_skip_last || has_take0) {
+        for (a, b) in [(true, false), (false, true), (true, true)] {
+          let o = Opts { skip_last_lazy: a && has_skip_last, take0_immediate: b && has_take0, ..Opts::default() };
+          if model::eval(&case.node, &inputs, o).map_or(false, |e| e == *act) {
+            ok = true;
+          }
+        }
+      }
       if ok {
         Verdict::Ok
       } else {
